@@ -1617,7 +1617,11 @@ class Stage:
             raise Exception(msg)
         N, M = stage._method.N, stage._method.M
 
-        expr_f = Function('expr', [stage.t, stage.x, stage.xq, stage.z, stage.u, vertcat(stage.p, stage.v), stage.t0, stage.T], [expr])
+        # Derivatives of bspline signals are no members of stage.p/stage.v: they get an input of their own
+        sig_syms = list(stage._method.signals.keys())
+        der_idx = [i for i,s in enumerate(sig_syms) if s not in stage.parameters['bspline'] and s not in stage.variables['bspline']]
+        der_syms = vvcat([sig_syms[i] for i in der_idx])
+        expr_f = Function('expr', [stage.t, stage.x, stage.xq, stage.z, stage.u, vertcat(stage.p, stage.v), stage.t0, stage.T, der_syms], [expr])
         assert not expr_f.has_free(), str(expr_f.free_mx())
 
 
@@ -1662,7 +1666,8 @@ class Stage:
                     z = nan
 
                 pv = stage._method.get_p_sys(stage,k,signal_values=[e[count_blocks] for e in v_sampled_store])
-                sub_expr.append(stage._method.eval_at_integrator(stage, expr_f(local_t.T, nan if coeff is None else mtimes(coeff,tpower), nan if coeff_q is None else mtimes(coeff_q,tpower), z, stage._method.U[k], pv, stage._method.t0, stage._method.T), k, l))
+                dv = vcat([v_sampled_store[i][count_blocks] for i in der_idx])
+                sub_expr.append(stage._method.eval_at_integrator(stage, expr_f(local_t.T, nan if coeff is None else mtimes(coeff,tpower), nan if coeff_q is None else mtimes(coeff_q,tpower), z, stage._method.U[k], pv, stage._method.t0, stage._method.T, dv), k, l))
                 t0+=dt
                 count_blocks+=1
             q_start += stage._method.xqk[k]
@@ -1678,7 +1683,9 @@ class Stage:
             z = nan
 
         pv = stage._method.get_p_sys(stage,-1)
-        sub_expr.append(stage._method.eval_at_integrator(stage, expr_f(time[k+1], nan if coeff is None else mtimes(stage._method.poly_coeff[-1],tpower), nan if coeff_q is None else mtimes(horzcat(stage._method.xqk[-2],stage._method.poly_coeff_q[-1]),tpower), z, stage._method.U[-1], pv, stage._method.t0, stage._method.T), k, l))
+        sig_vals = list(stage._method.signals.values())
+        dv = vcat([sig_vals[i].sampled[-1] for i in der_idx])
+        sub_expr.append(stage._method.eval_at_integrator(stage, expr_f(time[k+1], nan if coeff is None else mtimes(stage._method.poly_coeff[-1],tpower), nan if coeff_q is None else mtimes(horzcat(stage._method.xqk[-2],stage._method.poly_coeff_q[-1]),tpower), z, stage._method.U[-1], pv, stage._method.t0, stage._method.T, dv), k, l))
 
         return vcat(total_time), hcat(sub_expr)
 
